@@ -38,7 +38,8 @@ def load_registry():
 
 
 def _worker(job):
-    modname, uname, timeout_ms = job
+    modname, uname, timeout_ms = job[:3]
+    second = job[3] if len(job) > 3 else False
     sys.path.insert(0, ROOT)
     from pyvc.frontend import Repo
     from pyvc.verify import run_unit
@@ -47,7 +48,7 @@ def _worker(job):
     repo = Repo(REPO_DIR)
     for u in mod.UNITS:
         if u.name == uname:
-            return run_unit(repo, u, make_cfg, timeout_ms)
+            return run_unit(repo, u, make_cfg, timeout_ms, second=second)
     return {"unit": uname, "error": "crash: unit not found", "obligations": [], "props": []}
 
 
@@ -119,6 +120,7 @@ def main(argv):
     ap.add_argument("--jobs", type=int, default=min(16, os.cpu_count() or 4))
     ap.add_argument("--verbose", "-v", action="store_true")
     ap.add_argument("--replay", default=None)
+    ap.add_argument("--write-baseline", action="store_true", help="record the obligations generated on this tree in baseline/<prop>.json (never done by the registered commands)")
     args = ap.parse_args(argv)
     prop = args.prop
     t0 = time.time()
@@ -141,7 +143,7 @@ def main(argv):
         mod = importlib.import_module(modname)
         for u in getattr(mod, "UNITS", []):
             if prop in u.props and (not args.units or args.units in u.name):
-                jobs.append((modname, u.name, timeout_ms))
+                jobs.append((modname, u.name, timeout_ms, args.tier == "thorough"))
         for i, chk in enumerate(getattr(mod, "STATIC", [])):
             if prop in chk["props"] and (not args.units or args.units in "static:" + chk["name"]):
                 sjobs.append((modname, i))
@@ -159,6 +161,7 @@ def main(argv):
     samples = []
     functions = {}
     solver_s = 0.0
+    second = {}
     for r in results:
         if r.get("error"):
             errors.append((r["unit"], r["error"], r.get("trace", "")))
@@ -170,6 +173,10 @@ def main(argv):
             if prop not in (ob.get("props") or r["props"]):
                 continue
             oid = "%s # %s" % (r["unit"], ob["name"])
+            for k_, v_ in (ob.get("second") or {}).items():
+                second[k_] = second.get(k_, 0) + v_
+                if k_ == "sat":
+                    errors.append((r["unit"], "back ends disagree on `%s`: z3 5.1 says unsat, z3 4.8.12 says sat" % ob["name"], ""))
             if ob["verdict"] == "proved":
                 n_ob += 1
                 n_proved += 1
@@ -225,6 +232,27 @@ def main(argv):
             json.dump(rp, fh, indent=1)
         out_lines.append("VIOLATION property=%s replay=%s%s" % (prop, path, suffix))
         rc = 1
+    # thorough tier: every registered public-API replay of this property is also run on the tree as it is.  They are the
+    # demonstrations of defects found earlier; one that fails (three runs out of three) is a failing input in hand.
+    replay_ev = []
+    if args.tier == "thorough" and not args.units:
+        for script in sorted(set(sc for (p_, sub, sc) in replays if p_ == prop)):
+            rcs = []
+            for attempt in range(3):
+                rcode, out = _run_replay(script)
+                rcs.append(rcode)
+                if rcode != 1:
+                    break
+            replay_ev.append({"script": script, "exit_codes": rcs})
+            if rcs == [1, 1, 1]:
+                os.makedirs(rdir, exist_ok=True)
+                path = os.path.join(rdir, "replay_%s.json" % "".join(c if c.isalnum() else "_" for c in os.path.basename(script)))
+                with open(path, "w") as fh:
+                    json.dump({"property": prop, "obligation": "replay:" + script, "replay_script": script, "replay_rc": 1, "replay_output": out}, fh, indent=1)
+                out_lines.append("VIOLATION property=%s replay=%s" % (prop, path))
+                rc = 1
+            elif rcs[-1] not in (0, 1):
+                errors.append(("replay:" + script, "replay script crashed (rc=%s)" % rcs[-1], out[-400:]))
     bounded_ev = []
     for (p_, bname, script) in bounded:
         rcode, out = run_replay(script)
@@ -244,6 +272,21 @@ def main(argv):
             rc = 1
         elif rcode != 0:
             errors.append(("bounded:" + bname, "bounded check crashed (rc=%s)" % rcode, out[-400:]))
+    # vacuity guard per obligation: every obligation discharged on the committed tree (baseline/<prop>.json) must be GENERATED again.
+    # One that is not (its clause depends on an event or a branch that is no longer there) cannot be decided on this tree: undecided.
+    all_ids = set(["%s # %s" % (r["unit"], ob["name"]) for r in results for ob in r.get("obligations", []) if prop in (ob.get("props") or r["props"])])
+    bpath = os.path.join(ROOT, "baseline", "%s.json" % prop)
+    if args.write_baseline and not args.units:
+        os.makedirs(os.path.dirname(bpath), exist_ok=True)
+        with open(bpath, "w") as fh:
+            json.dump(sorted(all_ids), fh, indent=0)
+    missing = []
+    if os.path.exists(bpath) and not args.units:
+        failed_units = set(u for u, _e, _t in errors)
+        for oid in json.load(open(bpath)):
+            if oid not in all_ids and oid.split(" # ")[0] not in failed_units:
+                missing.append(oid)
+                undecided.append((oid, {"witness": {"reason": "not generated on this tree: the code no longer has the event / branch this clause is about"}}))
     for oid, ob in undecided:
         out_lines.append("UNDECIDED property=%s obligation=%s (%s)" % (prop, oid, (ob.get("witness") or {}).get("reason")))
     for unit, err, tr in errors:
@@ -261,16 +304,19 @@ def main(argv):
             "obligations": n_ob, "discharged": n_proved,
             "checker_cmd": "./check %s --tier %s" % (prop, args.tier),
             "trusted_base": TRUSTED_BASE,
-            "backend": {"z3-5.1.0-python-api": n_proved},
+            "backend": dict({"z3-5.1.0-python-api": n_proved}, **({"z3-4.8.12-binary (re-check of every unsat query, thorough tier)": second} if second else {})),
             "solver_s": round(solver_s, 2),
             "units": [{"unit": r["unit"], "function": r.get("func"), "paths": r.get("paths"), "wall_s": r.get("wall_s"),
-                       "error": r.get("error")} for r in results],
+                       "error": r.get("error"), "executes": r.get("executed") or []} for r in results],
             "functions_under_contract": functions,
+            "functions_executed_inline": sorted(set(q for r in results for q in (r.get("executed") or [])) - set(functions)),
             "samples": samples,
             "bounded_stand_ins": bounded_ev,
+            "replays_run": replay_ev,
             "known_findings_reported": [{"obligation": oid, "what": f["what"]} for oid, f in known],
             "refuted": [oid for oid, _, _ in violations],
             "undecided": [oid for oid, _ in undecided],
+            "baseline_obligations_not_generated": missing,
             "explanation": "every obligation is a z3 query `path condition and not clause` over the real ast of the "
                            "listed functions; proved = unsat on every path",
         },
